@@ -105,6 +105,46 @@ static inline BA T_UTF8(QS s) {
   return qs_as_ba(s);
 }
 
+/* ---- byte-level view of a term (QByteArray::size / at / operator[] const): a concrete atom is one byte; an opaque chunk x has
+   t_alen(x) bytes (A-LEN: between 1 and 2^26) whose values are t_byte(x, offset).  Equal atoms have equal bytes (congruence).
+   A-EXT (extensionality, instantiated by a unit for the pair of values a comparison is about): two chunks of equal length that
+   agree on every byte are the same chunk -- t_diff(x, y) names an offset where they differ. */
+char __CPROVER_uninterpreted_t_byte(int chunk, int offset);
+int __CPROVER_uninterpreted_t_diff(int chunk1, int chunk2);
+static inline int atom_len(int a) { if (a >= 1 && a <= 256) return 1; int l = __CPROVER_uninterpreted_t_alen(a); __CPROVER_assume(l >= 1 && l <= (1 << 26)); return l; }
+static inline char atom_byte(int a, int off) { return (a >= 1 && a <= 256) ? (char)(unsigned char)(a - 1) : __CPROVER_uninterpreted_t_byte(a, off); }
+/* (the byte-level view is kept for values of at most two atoms: each atom costs an uninterpreted-function application per use) */
+static inline int ba_size(BA x) {
+  MODEL_LIMIT(x.n <= 2, "size()/at() of a value of more than two atoms");
+  return (x.n >= 1 ? atom_len(x.a[0]) : 0) + (x.n >= 2 ? atom_len(x.a[1]) : 0);
+}
+static inline bool ba_bytes_extensional(BA x, BA y) {
+  if (x.n != 1 || y.n != 1 || x.a[0] == y.a[0]) return true;
+  int lx = atom_len(x.a[0]), ly = atom_len(y.a[0]);
+  if (lx != ly) return true;
+  int d = __CPROVER_uninterpreted_t_diff(x.a[0], y.a[0]);
+  return d >= 0 && d < lx && atom_byte(x.a[0], d) != atom_byte(y.a[0], d);
+}
+/* ---- QString::arg and fromUtf8.  fmt.arg(a) replaces the lowest-numbered place marker of fmt -- wherever it occurs, also inside text
+   that an EARLIER arg() call substituted.  The lowering computes the substitution on the literal format; that result is the value only
+   if no earlier substituted text contains a '%' (t_has_percent, unknown for an opaque chunk); otherwise the value is the opaque term
+   t_arg(current string, argument).  QString::fromUtf8 is the inverse of toUtf8 on well-formed UTF-8 (same atom, see T_UTF8) and some
+   other string (replacement characters) otherwise. */
+bool __CPROVER_uninterpreted_t_has_percent(int chunk);
+bool __CPROVER_uninterpreted_t_valid_utf8(int chunk);
+int __CPROVER_uninterpreted_t_arg(int fmt, int arg);
+int __CPROVER_uninterpreted_t_fromUtf8(int chunk);
+static inline bool qs_has_percent(QS s) { bool r = false; for (int i = 0; i < TERM_L; i++) if (i < s.n && (s.a[i] == TERM_BYTE('%') || ((s.a[i] < 1 || s.a[i] > 256) && __CPROVER_uninterpreted_t_has_percent(s.a[i])))) r = true; return r; }
+static inline QS T_ARG_OPAQUE(QS fmt, QS a) { int r = __CPROVER_uninterpreted_t_arg(ba_id(qs_as_ba(fmt)), ba_id(qs_as_ba(a))); __CPROVER_assume(r > 256); return ba_as_qs(ba_atom(r)); }
+static inline QS T_FROMUTF8(BA x) {
+  QS r = ba_as_qs(x);
+  for (int i = 0; i < TERM_L; i++) if (i < x.n && !(x.a[i] >= 1 && x.a[i] <= 128)) {
+    /* a lone byte >= 0x80 is not UTF-8; an opaque chunk may or may not be */
+    if (!(x.a[i] > 256 && __CPROVER_uninterpreted_t_valid_utf8(x.a[i]))) { int f = __CPROVER_uninterpreted_t_fromUtf8(x.a[i]); __CPROVER_assume(f > 256); r.a[i] = f; }
+  }
+  return r;
+}
+
 /* ---- QByteArray / QString models (class types of the lowering: passed by address, returned through _ret) */
 static inline void BA_ctor(BA *r) { *r = ba_empty(); }
 static inline void BA_assign(BA *d, const BA *s) { *d = *s; }
@@ -112,6 +152,14 @@ static inline void BA_concat(BA *r, const BA *x, const BA *y) { *r = ba_cat(*x, 
 static inline void BA_concat_char(BA *r, const BA *x, char c) { *r = ba_cat(*x, ba_byte(c)); }
 static inline void BA_char_concat(BA *r, char c, const BA *x) { *r = ba_cat(ba_byte(c), *x); }
 static inline bool BA_isEmpty(const BA *x) { return x->n == 0; }
+static inline int BA_size(const BA *x) { return ba_size(*x); }
+/* at(i) / operator[](i) const: an index outside the array is undefined behaviour (Q_ASSERT only) */
+static inline char BA_at(const BA *x, int i) {
+  MODEL_LIMIT(x->n <= 2, "size()/at() of a value of more than two atoms");
+  int l0 = x->n >= 1 ? atom_len(x->a[0]) : 0, l1 = x->n >= 2 ? atom_len(x->a[1]) : 0;
+  __CPROVER_assert(i >= 0 && i < l0 + l1, "[safety.byte_index_within_size]");
+  return i < l0 ? atom_byte(x->a[0], i) : atom_byte(x->a[1], i - l0);
+}
 static inline bool BA_eq(const BA *x, const BA *y) { return ba_eq(*x, *y); }
 static inline bool BA_ne(const BA *x, const BA *y) { return !ba_eq(*x, *y); }
 static inline bool BA_startsWith(const BA *x, const BA *y) { return T_STARTSWITH(*x, *y); }
@@ -126,6 +174,9 @@ static inline void QS_ctor(QS *r) { *r = ba_as_qs(ba_empty()); }
 static inline void QS_assign(QS *d, const QS *s) { *d = *s; }
 static inline bool QS_isEmpty(const QS *x) { return x->n == 0; }
 static inline void QS_toUtf8(BA *r, const QS *s) { *r = T_UTF8(*s); }
+static inline void QS_fromUtf8(QS *r, const BA *x) { *r = T_FROMUTF8(*x); }
+static inline bool QS_has_percent(const QS *s) { return qs_has_percent(*s); }
+static inline void QS_arg_opaque(QS *r, const QS *fmt, const QS *a) { *r = T_ARG_OPAQUE(*fmt, *a); }
 static inline void QS_concat(QS *r, const QS *x, const QS *y) { *r = ba_as_qs(ba_cat(qs_as_ba(*x), qs_as_ba(*y))); }
 static inline void QS_char_concat(QS *r, quint16 c, const QS *y) { MODEL_LIMIT(c < 128, "non-ASCII literal character"); *r = ba_as_qs(ba_cat(ba_atom((int)c + 1), qs_as_ba(*y))); }
 static inline void QS_concat_char(QS *r, const QS *x, quint16 c) { MODEL_LIMIT(c < 128, "non-ASCII literal character"); *r = ba_as_qs(ba_cat(qs_as_ba(*x), ba_atom((int)c + 1))); }
@@ -136,7 +187,7 @@ static inline int QCryptographicHash_hashLength(int alg) {
   return 0;
 }
 /* digests of one algorithm have one length (needed where the code XORs two digests byte by byte) */
-static inline void T_digest_len(BA *d, int alg) { __CPROVER_assume(__CPROVER_uninterpreted_t_alen(d->a[0]) == __CPROVER_uninterpreted_t_hashlen(alg)); }
+static inline void T_digest_len(BA *d, int alg) { __CPROVER_assume(d->a[0] > 256 && __CPROVER_uninterpreted_t_alen(d->a[0]) == QCryptographicHash_hashLength(alg)); }
 static inline void QCryptographicHash_hash(BA *r, const BA *data, int alg) { *r = T_H(alg, *data); T_digest_len(r, alg); }
 static inline void QMessageAuthenticationCode_hash(BA *r, const BA *msg, const BA *key, int alg) { *r = T_HMAC(alg, *key, *msg); T_digest_len(r, alg); }
 static inline void QPasswordDigestor_deriveKeyPbkdf2(BA *r, int alg, const BA *pw, const BA *salt, int iterations, unsigned long long dklen) { *r = T_Hi(alg, *pw, *salt, iterations, dklen); }
